@@ -150,12 +150,19 @@ func c02Specs(tier string) []*XSpec {
 	glob := []Op{{K: "flush"}, {K: "bg"}, {K: "dump"}, {K: "merge"}, {K: "restart", A: []int{0}}, {K: "restart", A: []int{1}}, {K: "restart", A: []int{3}}}
 	al := append(append([]Op{}, base...), glob...)
 	vh := append(append([]Op{}, al...), perKey(keys, Op{K: "setsame", Rev: 3})...)
+	// three keys in one chunk with hint splits of two items: split rotation inside a chunk
+	keys3 := []string{"a", "b", "c"}
+	al3 := append(perKey(keys3, Op{K: "set", V: "s"}), Op{K: "del", Key: "a"}, Op{K: "flush"}, Op{K: "dump"}, Op{K: "restart", A: []int{0}}, Op{K: "restart", A: []int{1}})
+	mk3 := func(d int) *XSpec {
+		c := cfgK1s()
+		return &XSpec{Property: "C02", Name: c.Name, Cfg: c, Alphabet: al3, Depth: d, Keys: keys3, ExecNode: c02ExecNode}
+	}
 	if tier == "quick" {
-		return []*XSpec{mk(cfgK1(), al, 4), mk(cfgK16(), vh, 3)}
+		return []*XSpec{mk(cfgK1(), al, 4), mk(cfgK16(), vh, 3), mk3(4)}
 	}
 	more := append(append([]Op{}, al...), perKey(keys, Op{K: "incr"}, Op{K: "set", V: "x300"}, Op{K: "set", V: "s", Rev: 3})...)
 	more = append(more, Op{K: "restart", A: []int{2}})
-	return []*XSpec{mk(cfgK1(), more, 4), mk(cfgK16(), append(more, perKey(keys, Op{K: "setsame", Rev: 3})...), 4), mk(cfgK256(), al, 4), mk(cfgK1(), al, 5)}
+	return []*XSpec{mk(cfgK1(), more, 4), mk(cfgK16(), append(more, perKey(keys, Op{K: "setsame", Rev: 3})...), 4), mk(cfgK256(), al, 4), mk(cfgK1(), al, 5), mk3(6)}
 }
 
 func C02(job *Job, r *Report) {
